@@ -350,10 +350,36 @@ def rule_disjunction(run, F, cfg):
            "hoisted around a joined alternation would bind to the first / last alternative only)",
            config=cfg)
     sb = cr.calls(r"RegexSetBuilder::new$")
-    ok = False
+    # the vector all per-pattern regexes are pushed into (whatever it is called)
+    pv = {cr.vexpr_operand(t["args"][0]) for b, t in pushes}
+    first = [(b, t) for b, t in sb if cr.vexpr_operand(t["args"][0]) in pv]
+    ok = len(pv) == 1 and len(first) == 1
+    # any further set is built only after the full set failed to compile (fallback, see invalid-member-isolated)
     for b, t in sb:
-        e = cr.expr_operand(t["args"][0])
-        ok = bool(re.match(r"^std::vec::Vec::with_capacity\(", e))
+        if (b, t) in first:
+            continue
+        c = dominating_conditions(cr, b, render=cr.vexpr_operand)
+        ok = ok and any(re.search(r"^discr\(regex::bytes::RegexSetBuilder::build\(", k) and v == 1 for k, v in c.items())
+    # one unparsable member must not disable its fused siblings: a RegexParsingError that follows a failed SET
+    # build is reached only through a per-pattern validity filter (is_ok of the single-pattern build)
+    flt = []
+    for b, t in cr.calls(r"^std::iter::Iterator::filter$"):
+        m = re.search(r"closure\[([^\]]+)\]", cr.vexpr_call(t))
+        c = F.fns.get(m.group(1)) if m else None
+        if c is not None and re.match(r"^std::result::Result::is_ok\(regex::bytes::RegexBuilder::build\(", c.expr_local(0)):
+            flt.append(b)
+    errs = []
+    for b, i, st in cr.statements():
+        if st["k"] == "assign" and st["rv"]["k"] == "agg" and st["rv"].get("variant") == "RegexParsingError":
+            c = dominating_conditions(cr, b, render=cr.vexpr_operand)
+            after_set = any(re.search(r"^discr\(regex::bytes::RegexSetBuilder::build\(", k) and v == 1 for k, v in c.items())
+            if after_set:
+                errs.append((cr.loc(b), any(cr.dominates(fb, b) for fb in flt)))
+    run.ob("C05.4.disjunction", "invalid-member-isolated", bool(errs) and all(okf for _, okf in errs),
+           "when the RegexSet of a fused filter fails to compile, compile_regex falls back to the patterns that compile "
+           "on their own; RegexParsingError (which never matches) is produced only after that per-pattern filter. "
+           "Otherwise one unparsable rule (`/broken(unclosed/`) silently disables every rule fused with it, which an "
+           f"unoptimised engine does not do (error sites after a failed set build: {errs})", site=cr.loc(0), config=cfg)
     run.ob("C05.4.disjunction", "all-patterns-to-set", ok,
            "the RegexSet builder receives the vector of all per-pattern regexes (not a joined string)",
            site=cr.loc(sb[0][0]) if sb else "", config=cfg)
